@@ -8,11 +8,15 @@ Case:  {"pool": [{"id": str|None, "name": str, "aliases": [str]|None}, ...],    
   ["at", i, z]             store[i].column(z)              (int)
   ["col", i, key]          store[i].column(key)            (str)
   ["pop", i, name]         store[i].pop_column(name)
-  ["allnames", i] | ["names", i] | ["iter", i]
+  ["allnames", i] | ["names", i] | ["iter", i]      (iter = list(iter(store[i])), consumed at once)
+  ["open", i]              iters.append(iter(store[i]))    (nothing consumed; iterators are numbered in opening order)
+  ["next", k]              next(iters[k])  -> ["item", name] | ["stop"] (StopIteration)
 "id": None means the FlatColumn is built without an identity (orso.tools.random_string supplies one;
 the observation records it).  A column object is identified by its tag (0 = an object the harness did
 not create).  Observed: {"ids": [...], "steps": [{"out": ..., "tags": [[tag]] (all schemas, after the call),
-"snap": full snapshot of all schemas, extras}], "final": [...], "pool_intact": bool}."""
+"snap": full snapshot of all schemas, extras}], "final": [...], "pool_intact": bool}.
+Round 2: open/next make an iteration whose steps are interleaved with other calls (removals on the iterated schema in
+particular) part of the histories; the model keeps, per open iterator, the names it has still to yield."""
 import itertools
 
 from vlib import coqlit as L
@@ -22,12 +26,14 @@ READY = True
 TECHNIQUE = ("Coq proof by induction over column lists / call histories (list laws for union, lookup, removal over abstract identity, "
              "text and payload types) + model/implementation correspondence evaluated in Coq, exhaustive small scope")
 LEVEL_TEXT = ("Machine-checked Coq theorems over an executable model of RelationSchema.__add__/find_column/column/pop_column/"
-              "all_column_names/column_names/__iter__, for all schemas over arbitrary identity and text types with decidable equality and an "
+              "all_column_names/column_names/__iter__ (also as an open iterator advanced between other calls), for all schemas over arbitrary identity and text types with decidable equality and an "
               "arbitrary case-normalisation function: union = left columns ++ first occurrences of unseen right identities (each once, in "
               "order, name and aliases of the left, associative, chain law), lookup returns the first bearer or None and agrees with positional "
               "access, iteration and all_column_names, removal deletes exactly the first column of that name, and over every history only the "
-              "popped schema changes. The model is tied to schema.py by running real RelationSchema objects through all pairs of a small scope "
-              "and random histories (unions, chains, lookups, removals interleaved) and evaluating the model on the same histories inside Coq, "
+              "popped schema changes; an iterator opened on a schema yields exactly the column names present when it was opened, in "
+              "positional order, whatever removals / sums / lookups / other iterators are interleaved with its steps, iterators modify no "
+              "schema, and `for n in s: if pred(n): s.pop_column(n)` removes exactly the selected columns. The model is tied to schema.py by running real RelationSchema objects through all pairs of a small scope "
+              "and random histories (unions, chains, lookups, removals, open iterators advanced step by step, all interleaved) and evaluating the model on the same histories inside Coq, "
               "with the column lists of ALL schemas compared after every call; a direct property oracle supplies replayable failing inputs.")
 LEVEL_NOTE = ("Trusted: Coq kernel + vm_compute; the hand-written model (validated, not verified, against CPython list / str semantics by the "
               "correspondence). str.lower is a parameter of the theorems; in the correspondence it is the ASCII rule plus a per-case table read "
@@ -41,10 +47,13 @@ COQ_IMPORTS = "From Orso Require Import Model.C17."
 COQ_CHECKS = {"hist": "c17_check"}
 COQ_SHOW = {"hist": "c17_show"}
 RULE = ("histories over {s_i + s_j (result appended to the store, so chains and self-sums occur), find_column (both modes), column(int), "
-        "column(str), pop_column, all_column_names, column_names, iteration} on real RelationSchema objects built from a pool of FlatColumn "
+        "column(str), pop_column, all_column_names, column_names, iteration (at once, and as it = iter(s) / next(it) interleaved with the "
+        "other calls)} on real RelationSchema objects built from a pool of FlatColumn "
         "objects with colliding identities / names / aliases / case variants (the same object may occur several times and in several "
-        "schemas); exhaustive over all pairs of column lists of length <= k over a 4-column pool followed by a fixed probe history, then "
-        "random histories; a case is non-trivial when a union had two non-empty operands or a lookup / removal returned a column; distinct "
+        "schemas); exhaustive over all pairs of column lists of length <= k over a 4-column pool followed by a fixed probe history "
+        "(iterators opened before each removal and advanced after it), exhaustive remove-while-iterating loops (every column list of "
+        "length <= k+1, every subset of loop positions at which the yielded name is removed), then random histories and random "
+        "iterator-heavy histories; a case is non-trivial when a union had two non-empty operands or a lookup / removal returned a column; distinct "
         "by canonical JSON of the case")
 TRUSTED = [
     "C17 model (coq/Model/C17.v): schemas as values (name, aliases, column list), a store of schemas for histories; Python list aliasing "
@@ -55,6 +64,8 @@ TRUSTED = [
 ASSUMPTIONS = [
     "identity and name comparison is an equivalence that coincides with equality (true for str; premise of the theorems that need it)",
     "lookup keys are str; column(i) is called with int or str",
+    "an open iterator is a value (the names not yet yielded): true of iter(list-of-names) as __iter__ builds it; the correspondence and the "
+    "oracle compare every next() with that value, so an __iter__ that reads the live column list shows up as a failing history",
 ]
 KNOWN_WITNESSES = {}
 
@@ -90,6 +101,7 @@ def observe(case):
     ids = [c.identity for c in pool]
     store = [RelationSchema(name=s["name"], aliases=list(s["aliases"]), columns=[pool[k] for k in s["cols"]]) for s in case["schemas"]]
     steps = []
+    iters = []
     for op in case["ops"]:
         k = op[0]
         extra = {}
@@ -130,6 +142,16 @@ def observe(case):
                 out = ["names", list(store[op[1]].column_names)]
             elif k == "iter":
                 out = ["names", list(iter(store[op[1]]))]
+            elif k == "open":
+                it = iter(store[op[1]])
+                extra["is_iterator"] = hasattr(it, "__next__") and iter(it) is it
+                iters.append(it)
+                out = ["opened"]
+            elif k == "next":
+                try:
+                    out = ["item", next(iters[op[1]])]
+                except StopIteration:
+                    out = ["stop"]
             else:
                 raise KeyError(k)
         except KeyError:
@@ -178,9 +200,28 @@ def oracle(case, obs):
         return pool[t - 1]
 
     exp = [{"name": s["name"], "aliases": list(s["aliases"]), "cols": [k + 1 for k in s["cols"]]} for s in case["schemas"]]
+    open_its = []   # per iterator: [names of the columns present when it was opened, how many it has yielded, schema index]
     for n, (op, st) in enumerate(zip(case["ops"], obs["steps"])):
         where = f"op {n} {op}"
         k, out = op[0], st["out"]
+        if k == "open":
+            if out != ["opened"] or not st.get("is_iterator"):
+                return f"{where}: iter(schema) must return an iterator, got {out}"
+            open_its.append([[col(t)["name"] for t in exp[op[1]]["cols"]], 0, op[1]])
+            if st["snap"] != exp:
+                return f"{where}: opening an iterator modified a schema: expected {exp}, got {st['snap']}"
+            continue
+        if k == "next":
+            names, done, on = open_its[op[1]]
+            want = ["item", names[done]] if done < len(names) else ["stop"]
+            if out != want:
+                return (f"{where}: iteration over schema {on} was opened on columns named {names} and has yielded {names[:done]}; it must "
+                        f"list every column present when it was opened once, in positional order, whatever was removed since: expected "
+                        f"{want}, got {out}")
+            open_its[op[1]][1] = min(done + 1, len(names))
+            if st["snap"] != exp:
+                return f"{where}: advancing an iterator modified a schema: expected {exp}, got {st['snap']}"
+            continue
         if k == "add":
             left, right = exp[op[1]], exp[op[2]]
             left_ids = [ident(t) for t in left["cols"]]
@@ -286,10 +327,24 @@ def _coq_out(out):
         return "(XNames %s)" % _TL(out[1])
     if out[0] == "raise" and out[1] == "IndexError":
         return "XRaise"
+    if out[0] == "opened":
+        return "XOpened"
+    if out[0] == "item":
+        return "(XItem %s)" % _T(out[1]) if isinstance(out[1], str) else "XBad"
+    if out[0] == "stop":
+        return "XStop"
     return "XBad"  # any other exception: never equal to a model output
 
 
 def _coq_op(op):
+    if op[0] == "open":
+        return "(HOpen %s)" % L.nat(op[1])
+    if op[0] == "next":
+        return "(HNext %s)" % L.nat(op[1])
+    return "(HOp %s)" % _coq_plain_op(op)
+
+
+def _coq_plain_op(op):
     k = op[0]
     if k == "add":
         return "(OAdd %s %s)" % (L.nat(op[1]), L.nat(op[2]))
@@ -324,7 +379,7 @@ def to_coq(case, obs):
     ops = L.lst(_coq_op(op) for op in case["ops"])
     steps = L.lst("(%s, (%s : list (list N)))" % (_coq_out(st["out"]), L.lst(_NL(t) for t in st["tags"])) for st in obs["steps"])
     fin = L.lst("(%s, %s, %s)" % (_T(s["name"]), _TL(s["aliases"] or []), _NL(s["cols"])) for s in obs["final"])
-    term = ("((%s : list (text * text)), (%s : list ccol), (%s : list (text * list text * list nat)), (%s : list (op text)), "
+    term = ("((%s : list (text * text)), (%s : list ccol), (%s : list (text * list text * list nat)), (%s : list (hop text)), "
             "(%s : list (cout * list (list N))), (%s : list (text * list text * list N)))") % (tbl, pool, schemas, ops, steps, fin)
     return ("hist", term)
 
@@ -349,6 +404,8 @@ def _nontrivial_key(case, obs):
             hit = hit or (bool(a) and bool(b))
         elif st["out"][0] == "col" and st["out"][1] is not None:
             hit = True
+        elif st["out"][0] == "item":
+            hit = True
     if not hit:
         return None
     return repr((case["pool"], case["schemas"], case["ops"]))
@@ -361,6 +418,17 @@ def classify(case, obs):
         yield "classify-error"
 
 
+def _removed_position(it, before, after):
+    """index, in the iterator's opening snapshot, of the column a removal took out (best effort, for statistics only)"""
+    pos = next((p for p, (a, b) in enumerate(zip(before, after + [None])) if a != b), len(before) - 1)
+    # map the live position to the snapshot position by skipping the snapshot entries already removed
+    gone = sorted(it[3])
+    for g in gone:
+        if g <= pos:
+            pos += 1
+    return pos
+
+
 def _classify(case, obs):
     pool, ids = case["pool"], obs["ids"]
     n0 = len(case["schemas"])
@@ -371,9 +439,30 @@ def _classify(case, obs):
     if _lower_table(case):
         yield "pool:non-ascii-lower"
     cur = [[k + 1 for k in s["cols"]] for s in case["schemas"]]
+    its = []       # per open iterator: [schema index, columns when opened, yielded so far, removals on that schema since it was opened]
     for op, st in zip(case["ops"], obs["steps"]):
         k = op[0]
         yield "op:" + k
+        if k == "open":
+            its.append([op[1], list(cur[op[1]]), 0, []])
+        elif k == "next":
+            it = its[op[1]]
+            if st["out"][0] == "stop":
+                yield "iter:stop-after-removal" if it[3] else "iter:stop"
+            else:
+                if any(pos < it[2] for pos in it[3]):
+                    yield "iter:item-after-removal-of-an-earlier-column"
+                if any(pos >= it[2] for pos in it[3]):
+                    yield "iter:item-after-removal-of-a-later-column"
+                if len(cur[it[0]]) == 0:
+                    yield "iter:item-from-a-now-empty-schema"
+            it[2] += 1
+        elif k == "pop" and st["out"] != ["col", None]:
+            for it in its:
+                if it[0] == op[1] and it[2] < len(it[1]) + 1:
+                    # position, among the columns the iterator was opened on, of the column just removed
+                    it[3].append(_removed_position(it, cur[op[1]], st["tags"][op[1]]))
+                    yield "pop:under-an-open-iterator"
         if k == "add":
             a, b = cur[op[1]], cur[op[2]]
             ia, ib = [ids[t - 1] for t in a], [ids[t - 1] for t in b]
@@ -519,6 +608,91 @@ def _random_case(rng, big=False):
     return {"pool": pool, "schemas": schemas, "ops": ops}
 
 
+def _ident(pool, k):
+    return pool[k]["id"] if pool[k]["id"] is not None else ("auto", k)
+
+
+def _random_iter_case(rng, big=False):
+    """histories in which iterators are opened, advanced a step at a time and the iterated schemas lose columns in between;
+    the generator follows the column lists (its own bookkeeping, not the oracle) to aim removals at columns that exist"""
+    base = _random_case(rng, big)
+    pool, schemas = base["pool"], base["schemas"]
+    if all(len(s["cols"]) < 2 for s in schemas):
+        schemas[0]["cols"] = [rng.randrange(len(pool)) for _ in range(rng.randint(2, 5))]
+    sim = [list(s["cols"]) for s in schemas]
+    all_strs = sorted({x for p in pool for x in _names_of(p)})
+    its, ops = [], []
+
+    def pop(i, name):
+        ops.append(["pop", i, name])
+        pos = next((p for p, c in enumerate(sim[i]) if pool[c]["name"] == name), None)
+        if pos is not None:
+            del sim[i][pos]
+
+    def pick_schema():
+        full = [i for i, c in enumerate(sim) if len(c) >= 2]
+        return rng.choice(full) if full and rng.random() < 0.85 else rng.randrange(len(sim))
+
+    if rng.random() < 0.35:
+        # a for-loop that removes some of the names it is handed (and now and then another column)
+        if rng.random() < 0.4 and len(sim) >= 2:
+            i, j = rng.randrange(len(sim)), rng.randrange(len(sim))
+            ops.append(["add", i, j])
+            seen = [_ident(pool, c) for c in sim[i]]
+            new = list(sim[i])
+            for c in sim[j]:
+                if _ident(pool, c) not in seen:
+                    seen.append(_ident(pool, c))
+                    new.append(c)
+            sim.append(new)
+            i = len(sim) - 1 if rng.random() < 0.7 else i
+        else:
+            i = pick_schema()
+        k = len(its)
+        its.append(i)
+        ops.append(["open", i])
+        prob = rng.choice([0.3, 0.6, 1.0])
+        for c in list(sim[i]):
+            ops.append(["next", k])
+            if rng.random() < prob:
+                pop(i, pool[c]["name"])
+            elif sim[i] and rng.random() < 0.2:
+                pop(i, pool[rng.choice(sim[i])]["name"])
+        ops += [["next", k], [rng.choice(["names", "iter", "allnames"]), i], ["next", k]]
+        return {"pool": pool, "schemas": schemas, "ops": ops}
+    for _ in range(rng.randint(4, 22 if big else 14)):
+        r = rng.random()
+        if r < 0.16 or not its:
+            i = pick_schema()
+            its.append(i)
+            ops.append(["open", i])
+        elif r < 0.52:
+            ops.append(["next", rng.randrange(len(its))])
+        elif r < 0.80:
+            i = rng.choice(its) if rng.random() < 0.85 else rng.randrange(len(sim))
+            if sim[i] and rng.random() < 0.85:
+                pop(i, pool[rng.choice(sim[i])]["name"])
+            else:
+                pop(i, rng.choice(all_strs + ["zz"]))
+        elif r < 0.88:
+            i, j = rng.randrange(len(sim)), rng.randrange(len(sim))
+            ops.append(["add", i, j])
+            seen = [_ident(pool, c) for c in sim[i]]
+            new = list(sim[i])
+            for c in sim[j]:
+                if _ident(pool, c) not in seen:
+                    seen.append(_ident(pool, c))
+                    new.append(c)
+            sim.append(new)
+        else:
+            i = rng.randrange(len(sim))
+            ops.append(rng.choice([["names", i], ["iter", i], ["find", i, rng.choice(all_strs), rng.random() < 0.5], ["at", i, rng.choice([0, -1, 1, 4])]]))
+    for k in range(len(its)):
+        if rng.random() < 0.5:
+            ops += [["next", k]] * rng.randint(1, 4)
+    return {"pool": pool, "schemas": schemas, "ops": ops}
+
+
 _XPOOL = [
     {"id": "p", "name": "a", "aliases": ["b"]},
     {"id": "q", "name": "a", "aliases": []},       # same name, different identity
@@ -526,8 +700,28 @@ _XPOOL = [
     {"id": "r", "name": "b", "aliases": ["A"]},
 ]
 _XPROBE = [["add", 0, 1], ["add", 1, 0], ["add", 2, 1], ["add", 0, 3], ["allnames", 2], ["find", 2, "a", False],
-           ["find", 2, "b", True], ["find", 2, "B", False], ["find", 4, "zz", True], ["pop", 2, "a"], ["find", 2, "a", False],
-           ["pop", 4, "b"], ["at", 4, -1], ["names", 0], ["iter", 1], ["names", 4]]
+           ["find", 2, "b", True], ["find", 2, "B", False], ["find", 4, "zz", True],
+           ["open", 2], ["open", 2], ["next", 1], ["open", 4],
+           ["pop", 2, "a"], ["next", 0], ["next", 1], ["find", 2, "a", False],
+           ["pop", 4, "b"], ["next", 2], ["at", 4, -1], ["names", 0], ["iter", 1], ["names", 4],
+           ["next", 0], ["next", 1], ["next", 2], ["next", 0], ["next", 2]]
+
+
+def _loop_case(cols, mask, other):
+    """`it = iter(s); for n in it: if <position selected by mask>: s.pop_column(n)`, one more next(it), then the names; with
+    other: a second iterator opened half-way, advanced at the end."""
+    names = [_XPOOL[c]["name"] for c in cols]
+    ops = [["open", 0]]
+    for p, n in enumerate(names):
+        ops.append(["next", 0])
+        if other and p == len(names) // 2:
+            ops.append(["open", 0])
+        if mask >> p & 1:
+            ops.append(["pop", 0, n])
+    ops += [["next", 0], ["names", 0], ["next", 0]]
+    if other and names:
+        ops += [["next", 1]] * (len(names) + 1)
+    return {"pool": [dict(p) for p in _XPOOL], "schemas": [{"name": "L", "aliases": ["l"], "cols": list(cols)}], "ops": ops}
 
 
 def exhaustive(tier):
@@ -540,9 +734,16 @@ def exhaustive(tier):
                 yield {"pool": [dict(p) for p in _XPOOL],
                        "schemas": [{"name": "L", "aliases": ["l"], "cols": a}, {"name": "R", "aliases": [], "cols": b}],
                        "ops": [list(o) for o in _XPROBE]}
+        # remove-while-iterating: every column list of length <= depth+1, every subset of loop positions
+        for d in range(depth + 2):
+            for cols in itertools.product(range(4), repeat=d):
+                for mask in range(1 << d):
+                    yield _loop_case(cols, mask, other=(mask % 3 == 1))
 
     return it(), (f"all ordered pairs of column lists of length <= {depth} over a 4-column pool (shared identity, shared name, alias/case "
-                  f"collisions), each followed by a 16-call probe history (sums both ways, chains, lookups, removals)")
+                  f"collisions), each followed by a {len(_XPROBE)}-call probe history (sums both ways, chains, lookups, removals, three iterators "
+                  f"opened before the removals and advanced after them); all remove-while-iterating loops over column lists of length <= "
+                  f"{depth + 1} of that pool x every subset of loop positions at which the yielded name is removed")
 
 
 def corpus():
@@ -562,6 +763,24 @@ def corpus():
          "schemas": [{"name": "s", "aliases": [], "cols": [2, 1, 0]}],
          "ops": [["find", 0, "İ", True], ["find", 0, "i̇", True], ["find", 0, "ẞ", True], ["find", 0, "ασ", True],
                  ["find", 0, "ας", True], ["find", 0, "ß", False], ["find", 0, "SS", True], ["allnames", 0]]},
+        # round 2: iteration interleaved with removal.  dropping the adjacent private columns while walking the schema
+        {"pool": [{"id": "i1", "name": "id", "aliases": []}, {"id": "i2", "name": "_loaded", "aliases": []},
+                  {"id": "i3", "name": "_source", "aliases": []}, {"id": "i4", "name": "name", "aliases": []}],
+         "schemas": [{"name": "t", "aliases": [], "cols": [0, 1, 2, 3]}],
+         "ops": [["open", 0], ["next", 0], ["next", 0], ["pop", 0, "_loaded"], ["next", 0], ["pop", 0, "_source"], ["next", 0],
+                 ["next", 0], ["names", 0], ["find", 0, "_source", False], ["next", 0]]},
+        # one removal between two steps of an iterator over a union; the operands are not reached
+        {"pool": [{"id": "i1", "name": "a", "aliases": []}, {"id": "i2", "name": "b", "aliases": []},
+                  {"id": "i3", "name": "c", "aliases": []}, {"id": "i4", "name": "d", "aliases": []}],
+         "schemas": [{"name": "l", "aliases": [], "cols": [0, 1]}, {"name": "r", "aliases": [], "cols": [2, 3]}],
+         "ops": [["add", 0, 1], ["open", 2], ["open", 0], ["next", 0], ["pop", 2, "a"], ["next", 0], ["next", 0], ["next", 0],
+                 ["next", 0], ["next", 1], ["next", 1], ["next", 1], ["names", 2], ["names", 0]]},
+        # emptying a schema by walking it; a removal of a column the iterator has not reached yet; iterator on an empty schema
+        {"pool": [{"id": "i%d" % k, "name": n, "aliases": []} for k, n in enumerate("pqrst")],
+         "schemas": [{"name": "t", "aliases": [], "cols": [0, 1, 2, 3, 4]}, {"name": "e", "aliases": [], "cols": []}],
+         "ops": [["open", 0], ["open", 0], ["open", 1], ["next", 2], ["pop", 0, "t"]]
+                + [o for n in "pqrs" for o in (["next", 0], ["pop", 0, n])] + [["next", 0], ["next", 0], ["names", 0], ["open", 0], ["next", 3]]
+                + [["next", 1]] * 6},
     ]
 
 
@@ -569,30 +788,61 @@ def generate(rng, tier):
     count = 1200 if tier == "quick" else 24000
     for i in range(count):
         yield _random_case(rng, big=(i % 4 == 3))
+    for i in range(400 if tier == "quick" else 5000):
+        yield _random_iter_case(rng, big=(i % 4 == 3))
 
 
 def search(rng):
     while True:
-        yield _random_case(rng, big=rng.random() < 0.3)
+        if rng.random() < 0.4:
+            yield _random_iter_case(rng, big=rng.random() < 0.3)
+        else:
+            yield _random_case(rng, big=rng.random() < 0.3)
+
+
+def _indices_ok(case):
+    n, m = len(case["schemas"]), 0
+    for op in case["ops"]:
+        if op[0] == "next":
+            if op[1] >= m:
+                return False
+            continue
+        if any(x >= n for x in ([op[1], op[2]] if op[0] == "add" else [op[1]])):
+            return False
+        if op[0] == "add":
+            n += 1
+        elif op[0] == "open":
+            m += 1
+    return True
+
+
+def _drop_op(case, i):
+    """the case without call i, later references renumbered; None when a later call needs what call i created"""
+    ops = case["ops"]
+    op, rest = ops[i], [list(o) for o in ops[i + 1:]]
+    if op[0] == "add":
+        made = len(case["schemas"]) + sum(1 for o in ops[:i] if o[0] == "add")
+        for o in rest:
+            for pos in ((1, 2) if o[0] == "add" else () if o[0] == "next" else (1,)):
+                if o[pos] == made:
+                    return None
+                if o[pos] > made:
+                    o[pos] -= 1
+    elif op[0] == "open":
+        k = sum(1 for o in ops[:i] if o[0] == "open")
+        rest = [o for o in rest if not (o[0] == "next" and o[1] == k)]
+        for o in rest:
+            if o[0] == "next" and o[1] > k:
+                o[1] -= 1
+    cand = dict(case, ops=[list(o) for o in ops[:i]] + rest)
+    return cand if _indices_ok(cand) else None
 
 
 def shrink(case):
-    ops = case["ops"]
-    # dropping an add renumbers later store indices: only drop ops after which no index refers past the shrunken store
-    for i in reversed(range(len(ops))):
-        cand = ops[:i] + ops[i + 1:]
-        n = len(case["schemas"])
-        ok = True
-        for op in cand:
-            idx = [op[1], op[2]] if op[0] == "add" else [op[1]]
-            if any(x >= n for x in idx):
-                ok = False
-                break
-            if op[0] == "add":
-                n += 1
-        if ok and (ops[i][0] != "add" or i == len(ops) - 1 or all(
-                (o[1] < len(case["schemas"])) and (o[0] != "add" or o[2] < len(case["schemas"])) for o in ops[i + 1:])):
-            yield dict(case, ops=cand)
+    for i in reversed(range(len(case["ops"]))):
+        cand = _drop_op(case, i)
+        if cand is not None:
+            yield cand
     for k, s in enumerate(case["schemas"]):
         for j in range(len(s["cols"])):
             s2 = dict(s, cols=s["cols"][:j] + s["cols"][j + 1:])
